@@ -36,7 +36,14 @@ import (
 )
 
 var allRec = &selgen.Sel{Op: 'R', LimitNone: true, Subs: []*selgen.Sel{{Op: '|', Subs: []*selgen.Sel{{Op: '.'}, {Op: 'a', Subs: []*selgen.Sel{{Op: '@'}}}}}}}
-var subsetRec = &selgen.Sel{Op: 'R', LimitNone: true, Subs: []*selgen.Sel{{Op: '|', Subs: []*selgen.Sel{{Op: '.', Subset: true, From: 0, To: 1}, {Op: 'a', Subs: []*selgen.Sel{{Op: '@'}}}}}}}
+
+// (bounds counted from the end and beyond the end: they are resolved against each node's length)
+var subsetRec = &selgen.Sel{Op: 'R', LimitNone: true, Subs: []*selgen.Sel{{Op: '|', Subs: []*selgen.Sel{{Op: '.', Subset: true, From: -1, To: 100}, {Op: 'a', Subs: []*selgen.Sel{{Op: '@'}}}}}}}
+
+// a union led by a fields clause with three names, next to clauses with other interests
+var unionFields = &selgen.Sel{Op: 'R', LimitNone: true, Subs: []*selgen.Sel{{Op: '|', Subs: []*selgen.Sel{
+	{Op: 'f', Fields: []string{"a", "b", "c"}, Subs: []*selgen.Sel{{Op: '@'}, {Op: '@'}, {Op: '.'}}},
+	{Op: 'i', Index: 0, Subs: []*selgen.Sel{{Op: '@'}}}}}}}
 
 func compile(s *selgen.Sel) selector.Selector {
 	sel, err := selector.CompileSelector(gen.MustBuild(selgen.Doc(s)))
@@ -244,7 +251,12 @@ func HSharedWalk() {
 			lnk = gen.LinkOf(c)
 		}
 	}
-	op := nd.Choose("op", 7)
+	uf := compile(unionFields)
+	op := nd.Choose("op", 8)
+	if op == 7 {
+		sel = uf
+		op = 0
+	}
 	nd.Freeze()
 	nd.Concurrent(func() { sharedWalk(op, g, ls, cfg, sel, sub, lnk) })
 	nd.Thaw()
